@@ -26,6 +26,11 @@ def shapes():
         out.append([([], "d", None), (["a"], "d", None), (["a", "a"], k[0], k[1])])
         out.append([([], "d", None), (["a"], "d", None), (["a", "a"], k[0], k[1]), (["a", "b"], "f", [5]), (["b"], "f", [6, 6])])
     out.append([([], "d", None), (["a"], "d", None), (["a", "a"], "d", None), (["a", "b"], "d", None), (["b"], "d", None)])
+    # depth 3 and 4: content of directories below the first level, equal names on every level
+    out.append([([], "d", None), (["a"], "d", None), (["a", "b"], "d", None), (["a", "b", "f"], "f", [1])])
+    out.append([([], "d", None), (["a"], "d", None), (["a", "a"], "d", None), (["a", "a", "a"], "f", [2, 2]), (["a", "f"], "f", [3]), (["f"], "f", [])])
+    out.append([([], "d", None), (["a"], "d", None), (["a", "b"], "d", None), (["a", "b", "c"], "d", None), (["a", "b", "c", "f"], "f", [4]),
+                (["a", "b", "e"], "d", None), (["b"], "d", None), (["b", "b"], "f", [5, 5])])
     return out
 
 
@@ -198,7 +203,7 @@ def run(tier, seed):
                "fallback": c["fallback"]}
         chk.violation(sig, {"case": c, "record": results[i]["rec"], "judged": jc[i]}, {"case": c})
     chk.cov["traces_validated_against_impl"] = len(cases)
-    chk.cov["rule"] = ("source trees of depth <= 2 and fan-out <= 2 (files, empty files, empty directories, equal names on different "
+    chk.cov["rule"] = ("source trees of depth <= 4 (exhaustive leaf kinds to depth 2, selected shapes deeper) and fan-out <= 2 (files, empty files, empty directories, equal names on different "
                        "levels) x destinations '', 'd', 'd/e', '/d/e', 'w/x/../y' x write_into x client working directory x pre-existing "
                        "content x block size x MLSD / LIST-fallback server, through the real Client.upload / download / "
                        "list(recursive=True) / remove against the real server; ClientTree.tla in TLC computes the expected tree "
